@@ -560,3 +560,50 @@ def e_r5_ownership_and_context(p: Project, rep: Report, thorough=False):
         rep.check("E-R5", "no-text-wrapper-around-caller-streams", True, "", "")
     if n6 == 0:
         rep.check("E-R6", "decimal-context-untouched", True, "", "")
+
+
+def e_r7_reiterable_class_tables(p: Project, rep: Report):
+    """class-level tables consulted on every construction can be iterated again and again"""
+    from .source import Func as _Func
+
+    rep.rule("E-R7", "tables that are read on every construction / conversion (optionalMutexes, requiredMutexes) are lists or tuples, never one-shot iterators: a generator expression, map/filter/zip/iter object, or a helper returning one, is exhausted by the first use - the constraint is enforced for the first instance only and silently dropped afterwards")
+    schema = Schema(p)
+    ONE_SHOT = ("map", "filter", "zip", "iter", "reversed", "enumerate")
+    n = 0
+    for ci in schema.all_aggregate_classes():
+        for st in ci.node.body:
+            tgt = st.targets[0] if isinstance(st, ast.Assign) and len(st.targets) == 1 else (st.target if isinstance(st, ast.AnnAssign) else None)
+            if not (isinstance(tgt, ast.Name) and tgt.id in ("optionalMutexes", "requiredMutexes")) or getattr(st, "value", None) is None:
+                continue
+            n += 1
+            v = st.value
+            bad = None
+            if isinstance(v, ast.GeneratorExp):
+                bad = "a generator expression"
+            elif isinstance(v, ast.Call) and isinstance(v.func, ast.Name) and v.func.id in ONE_SHOT:
+                bad = f"a {v.func.id}() object"
+            elif isinstance(v, ast.Call) and isinstance(v.func, ast.Name):
+                t_ = p.resolve(ci.module, v.func.id)
+                if isinstance(t_, _Func):
+                    rets = [r.value for r in own_nodes(t_.node) if isinstance(r, ast.Return) and r.value is not None]
+                    if any(isinstance(r, ast.GeneratorExp) or (isinstance(r, ast.Call) and isinstance(r.func, ast.Name) and r.func.id in ONE_SHOT) for r in rets) or any(isinstance(x, (ast.Yield, ast.YieldFrom)) for x in ast.walk(t_.node)):
+                        bad = f"the one-shot iterator returned by {v.func.id}()"
+            rep.check("E-R7", f"{ci.name}.{tgt.id}:re-iterable", bad is None, f"{ci.name}.{tgt.id} is {bad}: validate_args consumes it on the first construction, after which the class enforces no such constraint at all (the same tree converts differently the second time)" if bad else "", f"{ci.mod.relpath}:{st.lineno}")
+    rep.unit("class_level_mutex_tables", n)
+
+
+def e_r8_memo_keys(p: Project, rep: Report, thorough=False):
+    """memoisation keyed by == on arguments whose equality is coarser than what the result depends on"""
+    rep.rule("E-R8", "no memoising decorator (lru_cache / cache) on a converter or formatter whose arguments are not plain text: the cache is keyed by hash/== of the arguments, and for datetime (equal by instant, whatever the zone), Decimal (1.0 == 1.00), int/bool/float (1 == True == 1.0) equal keys do not imply equal results - a later call is answered with the result of an earlier, different value")
+    n = 0
+    for modname, qn, cls, fn in scope_functions(p, thorough):
+        for dec in fn.decorator_list:
+            dn = (dotted(dec.func) if isinstance(dec, ast.Call) else dotted(dec)) or ""
+            if dn.split(".")[-1] not in ("lru_cache", "cache", "memoize"):
+                continue
+            n += 1
+            anns = [text(a.annotation) if a.annotation is not None else "?" for a in fn.args.args if a.arg not in ("self", "cls")]
+            only_text = bool(anns) and all(a in ("str", "bytes") for a in anns)
+            rep.check("E-R8", f"{modname}:{qn}:memo-key", only_text, f"@{dn} on {qn}({', '.join(anns)}): results are shared between arguments that merely compare equal (e.g. the same instant in two time zones, 1.0 and 1.00), so the output depends on what was converted earlier" if not only_text else "", f"{p.module(modname).relpath}:{fn.lineno}")
+    if n == 0:
+        rep.check("E-R8", "no-memoised-converters", True, "", "")
